@@ -131,7 +131,7 @@ def hierarchy_model(classes, leaf, mro_names):
     return errs, [s[0] for s in states], [(s[2] or "") for s in states], bool(redefined)
 
 
-def run_hierarchy(label, classes, leaf, res):
+def run_hierarchy(label, classes, leaf, res, bases_first=False):
     from magicbot.magic_tunable import setup_tunables
     from magicbot.state_machine import StateMachine, default_state, state, timed_state
 
@@ -149,6 +149,13 @@ def run_hierarchy(label, classes, leaf, res):
     mro_names = [c.__name__ for c in cls.__mro__]
     errs, names, descs, fuzzy_order = hierarchy_model(classes, leaf, mro_names)
     raised = None
+    if bases_first:
+        # other instantiable classes of the hierarchy come to life first (a robot with several machines sharing a base)
+        for c in classes[:-1]:
+            try:
+                g[c[0]]()
+            except Exception:  # noqa
+                pass
     try:
         obj = cls()
     except Exception as e:  # noqa
@@ -297,6 +304,8 @@ def work(item):
     if item["kind"] == "hier":
         for label, classes, leaf in item["cases"]:
             run_hierarchy(label, classes, leaf, res)
+            if len(classes) > 1:
+                run_hierarchy(label + "+bases-first", classes, leaf, res, bases_first=True)
             env.nt_maybe_reset(500)
         label, classes, leaf = item["cases"][0]
         res.sample(dict(family="hierarchy", layout=label, source="\n".join(class_src(c[0], c[1], c[2]) for c in classes)))
